@@ -922,13 +922,13 @@ def errors(source, model, wcshelper):
         source.err_ra = source.err_dec = -1
 
     if model[prefix + 'theta'].vary and np.isfinite(err_theta):
-        # pa error
+        # pa error: rotate a point on the major axis by err_theta
         off1 = wcshelper.pix2sky(
             [xo + sx * np.cos(np.radians(theta)),
-             yo + sy * np.sin(np.radians(theta))])
+             yo + sx * np.sin(np.radians(theta))])
         off2 = wcshelper.pix2sky(
             [xo + sx * np.cos(np.radians(theta + err_theta)),
-             yo + sy * np.sin(np.radians(theta + err_theta))])
+             yo + sx * np.sin(np.radians(theta + err_theta))])
         source.err_pa = abs(
             bear(ref[0], ref[1], off1[0], off1[1])
             - bear(ref[0], ref[1], off2[0], off2[1]))
